@@ -31,6 +31,11 @@ GKLS_CLASS = {2: (0.9, 0.2), 3: (0.66, 0.2), 4: (0.66, 0.2), 5: (0.66, 0.3)}
 # construction / real evaluation
 # ------------------------------------------------------------------------------------------------------------------
 def construct(fam, args):
+    common.beat("oracle: constructing a problem", {"family": fam, "args": list(args)})
+    return _construct(fam, args)
+
+
+def _construct(fam, args):
     args = tuple(args)
     if fam == "hill":
         from iOpt.problems.hill import Hill
@@ -79,6 +84,7 @@ _EVAL_FV = {}
 def real_eval(p, x, constraint=None):
     """value of the objective (constraint=None) or of constraint number `constraint` through the real Calculate"""
     from iOpt.trial import Point, FunctionValue, FunctionType
+    common.beat("oracle: Problem.Calculate")
     # the caller's coordinate buffer: ONE ndarray per problem object, overwritten in place with each new point (an evaluation must
     # be answered for what the array holds now, whatever it held at the previous call)
     ent = _EVAL_BUF.get(id(p))
